@@ -21,7 +21,7 @@ RULE = ('fresh loads of samples with resolutions 2^8..2^18 and non-powers of two
         'starting at 0 or logicle with negative events; distinct = digest(sample, call)')
 ASSUMPTIONS = ['logicle edges compared with the reference transform at rtol 1e-9 (2e-5 for float32 samples)']
 MIN_CHECKS = {'quick': 6000, 'thorough': 150000}
-REQUIRED_COUNTERS = ['chk:hist_bins', 'chk_hist_centre_linear', 'chk_hist_centre_log', 'chk:list-vs-single', 'chk:refusal', 'chk:history']
+REQUIRED_COUNTERS = ['chk:hist_bins', 'chk_hist_centre_linear', 'chk_hist_centre_log', 'chk:list-vs-single', 'chk:refusal', 'chk:history', 'chk:form']
 
 
 def run(ctx):
@@ -101,6 +101,21 @@ def run(ctx):
                         ok = ok and np.array_equal(np.asarray(single), np.asarray(o.value[j]))
                     ctx.counters['chk:list-vs-single'] += 1
                     ctx.check(ok, 'hist_bins:list-vs-per-channel', cid, **d)
+                if isinstance(ch, list) and rng.random() < 0.6:
+                    # same request with the list arguments in another legal form (tuple / ndarray / NumPy scalars):
+                    # a refused form is observed only; an accepted one is judged in situ and must give the same edges
+                    fname, fch = core.pick_form(rng, ch)
+                    fnb = tuple(nb) if isinstance(nb, list) else (np.int64(nb) if nb is not None and rng.random() < 0.5 else nb)
+                    fsc = tuple(sc) if isinstance(sc, list) else sc
+                    s2 = fresh()
+                    o2 = core.attempt(lambda: s2.hist_bins(fch, fnb, fsc, **kw))
+                    ctx.counters['chk:form'] += 1
+                    if o2.raised:
+                        ctx.note('form-refused:' + fname)
+                    else:
+                        same = len(o2.value) == len(o.value) and all(np.array_equal(np.asarray(a), np.asarray(b))
+                                                                     for a, b in zip(o2.value, o.value))
+                        ctx.check(same, 'form:edges-depend-on-argument-form', cid, form=fname, **d)
             nt = nb is None or 'log' in (sc if isinstance(sc, list) else [sc]) or not isint
             ctx.case_done(class_key=('call', state, 'int' if isint else 'float', ('all', 'pos', 'name', 'list', 'list')[form],
                                      'n-default' if nb is None else ('n-list' if isinstance(nb, list) else 'n'),
